@@ -5,6 +5,7 @@ import (
 	"encoding/json"
 	"errors"
 	"io"
+	"math"
 	"os"
 	"path/filepath"
 	"strings"
@@ -111,6 +112,11 @@ func runC10(t *mon.T, raw json.RawMessage) {
 		}
 		wopts = append(wopts, carv2.MaxAllowedSectionSize(maxSec))
 		t.Cover("wrap:section-limit-exactly-at-the-longest-section")
+	}
+	if len(x)%5 == 2 {
+		// "no limit" spelled as the largest value the option takes
+		wopts = append(wopts, carv2.MaxAllowedHeaderSize([]uint64{math.MaxUint64, 1 << 63}[len(x)%2]))
+		t.Cover("wrap:header-limit-at-the-top-of-the-integer-range")
 	}
 	checkWrap := func(api string, out []byte) {
 		t.Events(1)
